@@ -481,6 +481,61 @@ def rw_R22_bestmove(text, log, where):
     return text
 
 
+def rw_R11_map_collect(text, log, where):
+    """V.into_iter().map(|x| E).collect[::<..>]() -> index loop pushing E (definition of map-collect over a Vec of Copy items)"""
+    n = 0
+    while True:
+        masked = mask_code(text)
+        m = re.search(r'\.\s*into_iter\(\)\s*\.\s*map\s*\(', masked)
+        if not m:
+            return text
+        o = m.end() - 1
+        c = match_close(masked, o)
+        clo = text[o + 1:c].strip()
+        mc = re.match(r'\|\s*(mut\s+)?([A-Za-z_][A-Za-z_0-9]*)\s*\|\s*(.*)$', clo, flags=re.S)
+        if not mc:
+            raise ExtractError('R11: unexpected closure in map() in ' + where)
+        tail = re.match(r'\s*\.\s*collect\s*(::\s*<[^()]*>)?\s*\(\s*\)', masked[c + 1:])
+        if not tail:
+            raise ExtractError('R11: map() not followed by collect() in ' + where)
+        end = c + 1 + tail.end()
+        k = receiver_start(masked, m.start())
+        recv = text[k:m.start()].strip()
+        n += 1
+        var = mc.group(2)
+        mut = 'mut ' if mc.group(1) else ''
+        expr = mc.group(3).strip()
+        new = ('{ let v%d_ = %s; let mut out%d_ = Vec::new(); let mut i%d_: usize = 0; while i%d_ < v%d_.len() '
+               '{ let %s%s = v%d_[i%d_]; let e%d_ = %s; out%d_.push(e%d_); i%d_ += 1; } out%d_ }'
+               % (n, recv, n, n, n, n, mut, var, n, n, n, expr, n, n, n, n))
+        log.append({'rule': 'R11', 'where': where, 'before': text[k:end], 'after': new})
+        text = text[:k] + new + text[end:]
+
+
+def rw_R24_flat_map_collect(text, log, where):
+    """V.iter().flat_map(|x| F).collect() -> loop appending F for each element in order (definition of flat_map-collect)"""
+    while True:
+        masked = mask_code(text)
+        m = re.search(r'\.\s*iter\(\)\s*\.\s*flat_map\s*\(', masked)
+        if not m:
+            return text
+        o = m.end() - 1
+        c = match_close(masked, o)
+        clo = text[o + 1:c].strip()
+        mc = re.match(r'\|\s*([A-Za-z_][A-Za-z_0-9]*)\s*\|\s*(.*)$', clo, flags=re.S)
+        tail = re.match(r'\s*\.\s*collect\s*(::\s*<[^()]*>)?\s*\(\s*\)', masked[c + 1:])
+        if not mc or not tail:
+            raise ExtractError('R24: unexpected flat_map shape in ' + where)
+        end = c + 1 + tail.end()
+        k = receiver_start(masked, m.start())
+        recv = text[k:m.start()].strip()
+        new = ('{ let mut outf_ = Vec::new(); let mut if_: usize = 0; while if_ < %s.len() '
+               '{ let %s = &%s[if_]; let mut part_ = %s; outf_.append(&mut part_); if_ += 1; } outf_ }'
+               % (recv, mc.group(1), recv, mc.group(2).strip()))
+        log.append({'rule': 'R24', 'where': where, 'before': text[k:end], 'after': new})
+        text = text[:k] + new + text[end:]
+
+
 def rw_R9_is_some_and(text, log, where):
     while True:
         masked = mask_code(text)
@@ -662,6 +717,8 @@ def apply_text_rules(text, log, where, opts):
     text = rw_R17_map_or_else(text, log, where)
     text = rw_R18_to_strings(text, log, where)
     text = rw_R19_join(text, log, where)
+    text = rw_R11_map_collect(text, log, where)
+    text = rw_R24_flat_map_collect(text, log, where)
     text = rw_R14_closure_underscore(text, log, where)
     text = rw_R1_for_array(text, log, where)
     return text
@@ -776,7 +833,7 @@ class Unit:
 
     def do_type(self, directive):
         body = directive[len('//@TYPE'):].strip()
-        rel, rest = [x.strip() for x in body.split('::', 1)]
+        rel, rest = [x.strip() for x in re.split(r'\s::\s', body, 1)]
         parts = rest.split()
         kind, name = parts[0], parts[1]
         opts = parse_kv(parts[2:])
@@ -820,7 +877,7 @@ class Unit:
 
     def do_const(self, directive):
         body = directive[len('//@CONST'):].strip()
-        rel, scope, name = [x.strip() for x in body.split('::', 2)]
+        rel, scope, name = [x.strip() for x in re.split(r'\s::\s', body, 2)]
         name = name.split()[0]
         src = self.source(rel)
         s, e = src.find_const(scope, name)
@@ -833,7 +890,7 @@ class Unit:
 
     def do_fn(self, directive, contract, loops, aspects=()):
         body = directive[len('//@FN'):].strip()
-        rel, scope, rest = [x.strip() for x in body.split('::', 2)]
+        rel, scope, rest = [x.strip() for x in re.split(r'\s::\s', body, 2)]
         parts = rest.split()
         name = parts[0]
         opts = parse_kv(parts[1:])
